@@ -134,6 +134,20 @@ def run_order(prog, tier, repo):
             res.violation(key + ':depgraph', b.loc(), f'{b.name}: recheck is reachable without rebuilding the dependency graph')
         else:
             res.ok(key + ':depgraph', b.loc(), 'dep_graph rebuilt from parsed_modules after the last source mutation and before recheck')
+        # the set of modules to re-check is a closure over the dependency graph. A mutator that only adds or replaces sources
+        # (no removal) can introduce import edges that did not exist before, so it has to take the closure over the graph it has
+        # just rebuilt; the removing mutators look up the dependents of the vanished keys and are free to use the old graph.
+        aff = [bi for bi, bl in enumerate(b.blocks) if not bl.cleanup and bl.term[0] == 'call'
+               and (callee(bl.term)[1] or '').endswith('DependencyGraph::affected_set')]
+        removes = [bi for bi, t in muts_parsed if (callee(t)[1] or '').endswith('::remove')]
+        if aff and not removes:
+            if all(cfg.nodes_dominate([da], a) for a in aff):
+                res.ok(key + ':affected-set', b.loc(b.blocks[aff[0]].term[7]), 'the re-check set is computed on the rebuilt graph')
+            else:
+                res.violation(key + ':affected-set', b.loc(b.blocks[aff[0]].term[7]), f'{b.name} only adds or replaces sources but '
+                              f'computes the set of modules to re-check on the dependency graph of the previous state: import edges '
+                              f'introduced by this edit (and every edge of a new module) are missing from it, so modules reached only '
+                              f'through the new imports are not re-checked and keep diagnostics a from-scratch analysis would not give')
         if rechecks and cfg.nodes_postdominate(rechecks, 0):
             res.ok(key + ':recheck', b.loc(), 'every path through the mutator ends in recheck')
         else:
@@ -248,7 +262,46 @@ def run_errors(prog, tier, repo):
         res.violation(key, rc.loc(), f'{rc.name} overwrites errors[m] for every rechecked module but never reads the previous '
                       f'entry: syntax errors of a dependent module that is rechecked without being re-parsed disappear '
                       f'(a fresh server still reports them)')
-    # every caller tells recheck which modules it re-parsed: parse calls and the reparsed argument
+    # every rechecked module gets its entry overwritten - with the empty list when it has no errors any more. The grouped map
+    # is padded in a loop over the recheck set; each trip of that loop has to consult the grouped map itself (contains_key /
+    # insert / entry) on every path: a test of some other state in front of it lets a rechecked module keep its old entry.
+    grouped = [bl.term[4].local for bl in rc.blocks if not bl.cleanup and bl.term[0] == 'call' and bl.term[4] is not None
+               and (callee(bl.term)[1] or '').endswith('ErrorSet::group_errors')]
+    pad = []
+    for bi, bl in enumerate(rc.blocks):
+        t = bl.term
+        if bl.cleanup or t[0] != 'call' or not t[3] or not (callee(t)[1] or '').startswith('std::collections::HashMap'):
+            continue
+        r, _ = operand_root(rc, t[3][0])
+        if r in grouped and (callee(t)[1] or '').split('::')[-1] in ('contains_key', 'insert', 'entry', 'get', 'get_mut'):
+            pad.append(bi)
+    k2 = f'clear:{rc.name}'
+    if not grouped or not pad:
+        res.cannot_decide('the grouped error map padded with empty entries in recheck', rc.loc())
+    else:
+        heads = {h for (_, h) in cfg.back_edges()}
+        loops = [h for h in heads if any(cfg.can_reach(h, x) and cfg.can_reach(x, h) for x in pad)]
+        bad = None
+        for h in loops:
+            # a trip: from a successor of the head that stays in the loop back to the head, avoiding the pad blocks
+            body_ = {x for x in cfg.reachable(h) if cfg.can_reach(x, h)}
+            nxt = [x for x in body_ if rc.blocks[x].term[0] == 'call' and (callee(rc.blocks[x].term)[1] or '').split('::')[-1] == 'next']
+            for nb in nxt:
+                free = cfg.reachable(nb, removed_nodes=pad)
+                # the Some-edge side: reaching the head again without a pad block, through at least one other block of the loop
+                if any(u in free and u != nb and u in body_ and h in cfg.succ[u] for u in body_):
+                    # the None edge leaves the loop, it never returns to the head; so this is a real skipping trip unless the
+                    # only such path is the immediate exit
+                    bad = nb
+        if bad is not None:
+            res.violation(k2, rc.loc(rc.blocks[bad].term[7]), f'{rc.name} pads the grouped error map with an empty entry for a rechecked '
+                          f'module only on some paths of the loop trip: a rechecked module that is skipped keeps its previous '
+                          f'errors entry (a module that no longer exists, or whose errors were fixed, still reports them; the stale '
+                          f'entry also keeps strings alive that no marked module mentions)')
+        elif loops:
+            res.ok(k2, rc.loc(), 'every rechecked module gets its errors entry overwritten (empty when it has no errors)')
+        else:
+            res.cannot_decide('the loop padding the grouped error map', rc.loc())
     return [res]
 
 
